@@ -72,6 +72,7 @@ type CharIndices<'a> =
     core::iter::Chain<bstr::CharIndices<'a>, core::iter::Once<(usize, usize, char)>>;
 
 /// Mapping between byte and character indices.
+#[derive(Clone)]
 pub struct ByteChar<'a>(core::iter::Peekable<core::iter::Enumerate<CharIndices<'a>>>);
 
 impl<'a> ByteChar<'a> {
@@ -155,8 +156,11 @@ pub fn regex<'a>(
         if flags.ignore_empty() && whole.as_bytes().is_empty() {
             continue;
         }
+        // capture groups do not necessarily start at increasing positions,
+        // e.g. in `(?:(a)|(b))+` on "ba", so look up each from the start of the whole match
+        bc.char_of_byte(whole.start());
         let match_names = c.iter().zip(re.capture_names());
-        let matches = match_names.filter_map(|(m, n)| Some(Match::new(&mut bc, m?, n)));
+        let matches = match_names.filter_map(|(m, n)| Some(Match::new(&mut bc.clone(), m?, n)));
         if mi {
             out.push(Part::Mismatch(&s[last_byte..whole.start()]));
             last_byte = whole.end();
